@@ -504,7 +504,7 @@ package distributed
 // C10: the snapshot of the subscription index: one iteration over the trie with a closure that appends EVERY entry of every
 // decoded list (removed ones included) to the event
 //@ func (*subscriptionsState).dump(event *api.StateBroadcastEvent)
-//@   requires s != nil && s.subscriptions != nil && unlocked(s.mu) && event != nil
+//@   requires s != nil && s.subscriptions != nil && unlocked(s.mu) && event != nil && off(event.Subscriptions) == 0
 //@   ensures #treeIterates == old(#treeIterates) + 1
 //@   modifies event.Subscriptions, elems(event.Subscriptions), newobjs(api.SubscriptionList), newobjs(api.Subscription), newrows(*api.Subscription), newrows(bytes), #treeIterates
 //@ func (*subscriptionsState).dump$1(b []byte)
@@ -647,7 +647,7 @@ package distributed
 // C10: the snapshot of the retained store: one iteration over the trie with a closure that appends the decoded record of every
 // entry (removed ones included) to the event
 //@ func (*topicsState).dump(event *api.StateBroadcastEvent)
-//@   requires t != nil && t.tree != nil && event != nil
+//@   requires t != nil && t.tree != nil && event != nil && off(event.RetainedMessages) == 0
 //@   ensures #storeIterates == old(#storeIterates) + 1
 //@   modifies event.RetainedMessages, elems(event.RetainedMessages), newobjs(api.RetainedMessage), newobjs(packet.Publish), newobjs(packet.Header), newrows(bytes), newrows(*api.RetainedMessage), #storeIterates
 //@ func (*topicsState).dump$1(b []byte)
